@@ -20,10 +20,12 @@ pub enum Target {
     Alone(&'static str),
 }
 
-pub const STANDALONE: [&str; 10] = [
+pub const STANDALONE: [&str; 12] = [
     "rp", "user", "descriptorRef", "descriptor", "credParam", "options", "mcExtensions", "gaExtensions",
-    "hmacSecretInput", "cmParams",
+    "hmacSecretInput", "cmParams", "filteredParams", "formatsPreference",
 ];
+/// the stand-alone targets that are structs (have a presence lattice); the last two are lists
+pub const STANDALONE_STRUCTS: usize = 10;
 
 fn status_of(e: cbor_smol::Error) -> u8 {
     ctap_types::ctap2::Error::from(ctap_types::ctap2::CtapMappingError::ParsingError(e)) as u8
@@ -53,6 +55,8 @@ impl Target {
                 "gaExtensions" => ga_extensions_in(),
                 "hmacSecretInput" => hmac_secret_input(),
                 "cmParams" => cm_params(),
+                "filteredParams" => Ty::Params,
+                "formatsPreference" => Ty::Formats,
                 _ => unreachable!(),
             },
         }
@@ -82,6 +86,8 @@ impl Target {
                     "gaExtensions" => de::<get_assertion::ExtensionsInput>(bytes).map(|x| bind::observe_ga_ext(&x)),
                     "hmacSecretInput" => de::<get_assertion::HmacSecretInput>(bytes).map(|x| bind::observe_hmac_secret(&x)),
                     "cmParams" => de::<credential_management::SubcommandParameters>(bytes).map(|x| bind::observe_cm_params(&x)),
+                    "filteredParams" => de::<FilteredPublicKeyCredentialParameters>(bytes).map(|x| bind::observe_params(&x)),
+                    "formatsPreference" => de::<AttestationFormatsPreference>(bytes).map(|x| bind::observe_formats(&x)),
                     _ => unreachable!(),
                 });
                 match r {
@@ -302,4 +308,53 @@ pub fn all_seeds() -> Vec<(String, Target, V, Vec<u8>)> {
         }
     }
     out
+}
+
+/// one leaf / member replacement inside a seed
+#[derive(Clone, Debug)]
+pub struct Repl {
+    pub seed: usize,
+    pub path: crate::treewalk::Path,
+    pub name: String,
+    pub value: V,
+    pub what: String,
+}
+
+pub struct SeedMsg {
+    pub label: String,
+    pub target: Target,
+    pub wire: V,
+}
+
+pub fn seed_msgs(full_and_minimal_only: bool) -> Vec<SeedMsg> {
+    all_seeds()
+        .into_iter()
+        .filter(|s| !full_and_minimal_only || s.0.ends_with(":full") || s.0.ends_with(":minimal"))
+        .map(|(label, target, wire, _)| SeedMsg { label, target, wire })
+        .collect()
+}
+
+/// PX sweep over replacements: real decoder vs reference decoder on every mutated message
+pub fn sweep_replacements(ctx: &'static Ctx, prop: &'static str, name: &str, note: &str, seeds: &[SeedMsg], repls: &[Repl]) {
+    sweep(ctx, name, repls.len() as u64, note, |idx, l| {
+        let r = &repls[idx as usize];
+        let s = &seeds[r.seed];
+        let wire = crate::treewalk::replaced(&s.wire, &r.path, r.value.clone());
+        let bytes = s.target.bytes(&wire);
+        if bytes.len() > MAX_MSG {
+            l.bump("skipped: over message limit");
+            return;
+        }
+        l.nontrivial += 1;
+        let want = s.target.expect(&wire);
+        l.bump(match &want {
+            Dec::Ok(_) => "reference: accepted",
+            Dec::Err(_) => "reference: rejected",
+            _ => "?",
+        });
+        let v = compare_bytes(prop, &s.target, &bytes, &want);
+        if !v.ok {
+            l.fail(ctx, idx, v, || case_json(&s.target, &wire, json!({"seed": s.label, "member": r.name, "value": r.what})));
+        }
+    });
 }
